@@ -976,6 +976,12 @@ impl NamingActor {
         }
     }
 
+    /// verification hook: run the periodic empty-service sweep on demand
+    #[cfg(feature = "verif_hooks")]
+    pub(crate) fn verif_clear_empty_service(&mut self) {
+        self.clear_empty_service()
+    }
+
     fn clear_one_empty_service(&mut self, service_map_key: ServiceKey, now: u64) {
         if let Some(service) = self.service_map.get(&service_map_key) {
             if service.instance_size <= 0
